@@ -98,6 +98,15 @@ def run(ctx: Ctx) -> None:
                 why = f"no dominating consumption or test of a '{a.value}' token: the skipper would start counting in the middle of something else"
         ctx.ob("R13.1", f"parser:CxxParser.{fname}|_discard_contents({short(a)}, {short(b)}) #{_site_idx(pm, fname, call)}", ok, msg=why, node=call, mod=mod)
 
+    # ---------------------------------------------------------------- R13.8
+    # A region is a sequence of *tokens*: a brace inside a string, a character literal or a comment does not count, and
+    # only the lexer knows which is which.  The parser (and so every skipper) reaches the input through the token
+    # accessors only -- C09's who-may-call rule R9.1, evaluated here under this property's id: a skipper that scans the
+    # raw text, or a new stream method that does, is not a token-level skip.
+    from . import c09 as _c09
+    from ..report import run_shared as _run_shared
+    _run_shared(ctx, _c09.run, {"R9.1": ("R13.8", "regions are skipped token by token: parser.py reaches the input only through the token accessors of the stream (no raw-text scan, no new stream method)")})
+
     # ---------------------------------------------------------------- R13.2
     ctx.rule("R13.2", "_discard_contents: level 1, +1 on opener, -1 on closer and leave iff 0, one token per iteration, no other exit", minimum=5)
     _counting_loop(ctx, pm)
